@@ -166,11 +166,13 @@ pub struct TreeParams {
     pub cyclic_links: bool,
     pub dangling_links: bool,
     pub random_modes: bool,
+    /// allow links that point at themselves (ELOOP)
+    pub self_links: bool,
 }
 
 impl Default for TreeParams {
     fn default() -> Self {
-        TreeParams { max_nodes: 20, max_depth: 4, hostile_names: false, kind_w: [5, 6, 3, 0, 0, 0], cyclic_links: true, dangling_links: true, random_modes: false }
+        TreeParams { max_nodes: 20, max_depth: 4, hostile_names: false, kind_w: [5, 6, 3, 0, 0, 0], cyclic_links: true, dangling_links: true, random_modes: false, self_links: true }
     }
 }
 
@@ -204,6 +206,11 @@ pub fn gen_name(g: &mut Gen, hostile: bool, taken: &dyn Fn(&str) -> bool) -> Str
 
 /// Generate a tree rooted at directory `root` (relative path, created as the first node).
 pub fn gen_tree(g: &mut Gen, root: &str, p: &TreeParams) -> TreeSpec {
+    gen_tree_with(g, root, p, &[])
+}
+
+/// `extra_targets`: paths outside the tree that links may also point to
+pub fn gen_tree_with(g: &mut Gen, root: &str, p: &TreeParams, extra_targets: &[String]) -> TreeSpec {
     let mut nodes: Vec<Node> = vec![Node::new(root, Kind::Dir)];
     let root_depth = root.split('/').count();
     let n = g.usize_in(0, p.max_nodes);
@@ -231,11 +238,11 @@ pub fn gen_tree(g: &mut Gen, root: &str, p: &TreeParams) -> TreeSpec {
             1 => Kind::File,
             2 => {
                 // link target
-                let choice = g.weighted(&[6, if p.dangling_links { 2 } else { 0 }, if p.cyclic_links { 2 } else { 0 }, if p.cyclic_links { 1 } else { 0 }]);
+                let choice = g.weighted(&[6, if p.dangling_links { 2 } else { 0 }, if p.cyclic_links { 2 } else { 0 }, if p.cyclic_links && p.self_links { 1 } else { 0 }]);
                 match choice {
                     0 => {
-                        let ti = g.below(nodes.len() as u64) as usize;
-                        let target = nodes[ti].path.clone();
+                        let ti = g.below((nodes.len() + extra_targets.len()) as u64) as usize;
+                        let target = if ti < nodes.len() { nodes[ti].path.clone() } else { extra_targets[ti - nodes.len()].clone() };
                         // a link to an ancestor directory closes a cycle: only if allowed
                         let is_ancestor = parent == target || parent.starts_with(&format!("{target}/"));
                         if is_ancestor && !p.cyclic_links {
@@ -399,11 +406,13 @@ pub struct WalkOpts {
     pub depth_first: bool,
     pub min_depth: usize,
     pub max_depth: usize,
+    /// model an unprivileged user: directories without r-x for "other" cannot be listed
+    pub as_other: bool,
 }
 
 impl Default for WalkOpts {
     fn default() -> Self {
-        WalkOpts { follow: FollowMode::P, depth_first: false, min_depth: 0, max_depth: usize::MAX }
+        WalkOpts { follow: FollowMode::P, depth_first: false, min_depth: 0, max_depth: usize::MAX, as_other: false }
     }
 }
 
@@ -453,7 +462,9 @@ fn walk_rec(e: RefEntry, o: &WalkOpts, visit: &mut dyn FnMut(&RefEntry) -> Act, 
             Act::Continue => {}
         }
     }
-    if is_dir && !pruned && e.depth < o.max_depth {
+    if is_dir && !pruned && e.depth < o.max_depth && o.as_other && (rec.mode() & 0o005) != 0o005 {
+        events.push(Ev::Error(e.path.clone()));
+    } else if is_dir && !pruned && e.depth < o.max_depth {
         match std::fs::read_dir(&e.path) {
             Err(_) => events.push(Ev::Error(e.path.clone())),
             Ok(rd) => {
